@@ -189,9 +189,14 @@ package mempool
 //@ func (*Mempool).sortEthSignTyTx [C23]
 //@   opt safety=assumed overflow=assumed panics=allowed
 //@   ensures result == txs || result == merge
+// eth-signed senders: what is appended for a sender is the run of pooled nonces currentNonce, currentNonce+1, ...
+// without a gap (every nonce below the one being appended was present) and each appended transaction is
+// the pooled transaction of exactly that nonce
+//@   assert@call builtin.append#1: has(txs, nonce) && len(arg1) == 1 && arg1[0] == txs[nonce] && nonce >= currentNonce
+//@   assert@call builtin.append#1: forall n Int :: currentNonce <= n && n < nonce ==> has(txs, n)
 //@   loop 0 invariant len(merge) <= rangeindex + 1 && rangeindex >= -1
 //@   loop 1 invariant true
-//@   loop 2 invariant true
+//@   loop 2 invariant nonce >= currentNonce && forall n Int :: currentNonce <= n && n < nonce ==> has(txs, n)
 
 // ---- C21: pool bookkeeping ------------------------------------------------------------------------------
 
